@@ -135,6 +135,10 @@ let dispatch op args = match op, args with
   | "padded", [x; fill; left] -> let (md, sp) = op_padded (zll x) (zi fill) (zi left <> Z0) in L [vrows md; L (List.map vzl sp)]
   | "colsum", [x] -> let (md, sp) = op_colsum (zll x) in L [vzl md; vzl sp]
   | "colcounts", [x] -> let (md, sp) = op_colcounts (zll x) in L [vzl md; vzl sp]
+  | "where", [x; L m; y] -> let (md, sp) = op_where (zll x) (List.map bl m) (zll y) in L [vrows md; L (List.map vzl sp)]
+  | "where_s", [x; L m; y] -> let (md, sp) = op_where_s (zll x) (List.map bl m) (zi y) in L [vrows md; L (List.map vzl sp)]
+  | "like", [x; c] -> let (md, sp) = op_like (zll x) (zi c) in L [L (List.map vzl md); L (List.map vzl sp)]
+  | "concat1", [L xs] -> let r = L (List.map vzl (op_concat1 (List.map zll xs))) in L [r; r]
   | "argmax", [x] -> let (m, s) = op_argmax (zll x) in L [vzl m; vzl s]
   | "argmin", [x] -> let (m, s) = op_argmin (zll x) in L [vzl m; vzl s]
   | "rl2", (L [I kind; rows]) :: op :: rest ->
@@ -185,6 +189,7 @@ let dispatch op args = match op, args with
       let s = (match rsel r with RMany s -> s | _ -> failwith "rows") in
       L [vrows (dc_select (zll o) s); vrows (dc_select_spec (zll o) s)]
   | "dc_item", [o; i] -> let f = function Refused -> N | Ok l -> vzl l in L [f (dc_item (zll o) (zi i)); f (dc_item_spec (zll o) (zi i))]
+  | "dc_eq", [a; b] -> let r = I (if dc_eq (zll a) (zll b) then Zpos XH else Z0) in L [r; I (if zll a = zll b then Zpos XH else Z0)]
   | "dc_concat", [L os] -> let f l = L (List.map vzl l) in L [f (dc_concat (List.map zll os)); f (dc_concat_spec (List.map zll os))]
   | "varlen", [L blocks] -> L (List.map vzl (varlen_concat (List.map zll blocks)))
   | "setitem", [r; i; v] -> L [vrows (setitem_model_Z (zll r) (index i) (value v)); vrows (setitem_spec_Z (zll r) (index i) (value v))]
